@@ -2,6 +2,7 @@
 pandora/cost_volume_confidence/ -> Generated/KernelsConf.lean.
 
     ambiguity.py        Ambiguity.compute_ambiguity            -> Pandora.Generated.KernelsConf.computeAmbiguityPx
+    ambiguity.py        Ambiguity.compute_ambiguity_and_sampled_ambiguity -> computeAmbiguitySampledPx
     risk.py             Risk.compute_risk                      -> computeRiskPx
     interval_bounds.py  IntervalBounds.compute_interval_bounds -> computeIntervalBoundsPx
 
@@ -29,6 +30,8 @@ ETA = [FScalar("_eta_min"), FScalar("_eta_max"), FScalar("_eta_step")]
 # (file, class, method, Lean name, parameters as the translator must read them, the hoisted grid it must find)
 KERNELS = [
     (DIR + "ambiguity.py", "Ambiguity", "compute_ambiguity", "computeAmbiguityPx", [Slice3("cv")] + ETA,
+     {"arange": "_eta_min,_eta_max,_eta_step"}),
+    (DIR + "ambiguity.py", "Ambiguity", "compute_ambiguity_and_sampled_ambiguity", "computeAmbiguitySampledPx", [Slice3("cv")] + ETA,
      {"arange": "_eta_min,_eta_max,_eta_step"}),
     (DIR + "risk.py", "Risk", "compute_risk", "computeRiskPx", [Slice3("cv"), Slice3("sampled_ambiguity")] + ETA,
      {"arange": "_eta_min,_eta_max,_eta_step"}),
@@ -101,6 +104,13 @@ GOLDEN = {
         {"cv": [1, 1], "min_cost": 1, "max_cost": 1, "etas": [0, Fraction(1, 2)]},
         {"cv": [], "min_cost": 0, "max_cost": 1, "etas": [0]},
         {"cv": [3, 5], "min_cost": 3, "max_cost": 5, "etas": []},
+    ],
+    "computeAmbiguitySampledPx": [
+        {"cv": [0, 1, N], "min_cost": 0, "max_cost": 4, "etas": [0, Fraction(1, 4)]},
+        {"cv": [N, N, N], "min_cost": 0, "max_cost": 4, "etas": [0, Fraction(1, 4)]},
+        {"cv": [4, 2, 2, 3], "min_cost": 0, "max_cost": 4, "etas": [0, Fraction(1, 4), Fraction(1, 2)]},
+        {"cv": [1, 1], "min_cost": 1, "max_cost": 1, "etas": [0, Fraction(1, 2)]},
+        {"cv": [], "min_cost": 0, "max_cost": 1, "etas": [0]},
     ],
     "computeRiskPx": [
         {"cv": [0, 1, N], "sampled_ambiguity": [2, 3], "min_cost": 0, "max_cost": 4, "etas": [0, Fraction(1, 4)]},
